@@ -1030,11 +1030,20 @@ class Sense(_Relatable):
 
         """
         for lexid in self._home_lexicon_ids():
+            if self._wordnet._default_mode:
+                # the forms of a word come from its own lexicon family
+                form_lexids: tuple[int, ...] = (
+                    lexid,
+                    *get_lexicon_extension_bases(lexid),
+                    *get_lexicon_extensions(lexid),
+                )
+            else:
+                form_lexids = self._wordnet._lexicon_ids
             data = next(
                 find_entries(
                     id=self._entry_id,
                     lexicon_rowids=(lexid,),
-                    form_lexicon_rowids=self._get_lexicon_ids(),
+                    form_lexicon_rowids=form_lexids,
                 ),
                 None
             )
